@@ -24,6 +24,7 @@ pub fn run(stim: &Value, rec: &Rec) {
     // stim.tls: the channel is an https one (the scripted connector's pipe is wrapped in TLS by tonic; the in-process server presents a
     // certificate the client trusts)
     let tls = stim["tls"].as_bool().unwrap_or(false);
+    let stim_limited = stim["limited_dialer"].as_bool().unwrap_or(false);
     let env = Arc::new(Mutex::new(Env { script, pos: 0, consumed: vec![], kills: vec![], invocations: 0 }));
     let log = rec.clone();
     let hook_log = rec.clone();
@@ -85,7 +86,12 @@ pub fn run(stim: &Value, rec: &Rec) {
                 _ => {}
             }
         }
-        let ch = if lazy { Ok(ep.connect_with_connector_lazy(connector)) } else { ep.connect_with_connector(connector).await };
+        // stim.limited_dialer: the dialer is shared through a tower ConcurrencyLimit (one dial at a time), i.e. a connector that relies on
+        // tower's contract - poll_ready until it says ready, then call
+        let ch = if stim_limited {
+            let connector = tower::limit::ConcurrencyLimit::new(connector, 1);
+            if lazy { Ok(ep.connect_with_connector_lazy(connector)) } else { ep.connect_with_connector(connector).await }
+        } else if lazy { Ok(ep.connect_with_connector_lazy(connector)) } else { ep.connect_with_connector(connector).await };
         let consumed0 = std::mem::take(&mut env.lock().unwrap().consumed);
         let ch = match ch {
             Ok(c) => { log.ev(json!({"e":"connect","res":"ok","consumed":consumed0})); c }
